@@ -503,8 +503,14 @@ def keylog_text(lines, k):
                 sec = "".join(ch.upper() if rnd.getrandbits(1) else ch for ch in sec)
             o.append(f"{lab} {cr} {sec}")
         ls = o
-    for _ in range(k.get("comments", 0)):
-        ls.insert(rnd.randrange(len(ls) + 1), "# SSL/TLS secrets log file, generated by NSS")
+    for ci in range(k.get("comments", 0)):
+        if k.get("comment_keys") and lines and ci % 2 == 0:
+            # a commented-out entry: label and client random of a real line with a stale secret of the right length, in front of the
+            # real lines ("#" + entry, with and without a blank)
+            lab, cr, sec = lines[rnd.randrange(len(lines))].split(" ")
+            ls.insert(0, ("# " if ci % 4 == 0 else "#") + f"{lab} {cr} {rnd.randbytes(len(sec) // 2).hex()}")
+        else:
+            ls.insert(rnd.randrange(len(ls) + 1), "# SSL/TLS secrets log file, generated by NSS")
     for _ in range(k.get("blanks", 0)):
         ls.insert(rnd.randrange(len(ls) + 1), "")
     nl = "\r\n" if k.get("crlf") else "\n"
